@@ -205,6 +205,18 @@ CHECKS.update({
         design='DESIGN.md §4 C02', engine='worlds+refmodel+procs'),
 })
 
+CHECKS.update({
+    'C06': dict(
+        technique='exhaustive enumeration of bounded value domains per data class through real tasks; type-strict three-way comparison (built / computed / loaded) and stored-bytes invariance',
+        text='Every value of a bounded domain is produced by a real task with its own storage key and compared type-strictly between the value the harness built, the value the computing '
+             'chain returned and the value a fresh chain loads; the bytes of the store must be identical before and after loading. Domains: JSON - 37 atoms (64-bit boundary integers, '
+             '+-0.0, subnormal/huge floats, unicode incl. U+2028/U+2029/U+0085 and control characters, every falsy value) at top level (per return type) and inside 11 container shapes, 9 unusual '
+             'keys, all pairs (thorough: triples); numpy - 17 dtypes x 7 shapes (0-d..3-d, empty) x 3 fills x C/Fortran/strided; DataFrames/Series - 5 index kinds x 3 column-label kinds x '
+             '6 dtypes, empty frames, named/unnamed series; generated sequences of 0-3 items (eager and lazy); lists of 0-3 arrays; directory trees.',
+        note='Dict key order not compared (sort_keys by design). NaN, >64-bit ints, lone surrogates, non-str keys, object arrays excluded (outside the stated domain). Empty `<key>_tmp` work directories created by inspection are not stored files.',
+        design='DESIGN.md §4 C06', engine='enumvals'),
+})
+
 PENDING_REASON = 'check not built yet in this round (planned per DESIGN.md §4; technique applies)'
 
 
